@@ -452,7 +452,13 @@ struct PropsHarness : Harness
             } else if (k < 12) {
                 snprintf(b, sizeof(b),
                          "setdim s=%d i=%d name=%s kind=%d a=%d c=%d sh=%d", s,
-                         (int)g.below(5), gen_str(g, false, true).c_str(),
+                         // (also indices far outside the array, both ways)
+                         g.chance(0.1)
+                           ? (g.chance(0.5)
+                                ? -(int)g.range(1, 3)
+                                : (g.chance(0.5) ? INT32_MIN : INT32_MAX))
+                           : (int)g.below(5),
+                         gen_str(g, false, true).c_str(),
                          (int)g.below(4), (int)g.below(5000), (int)g.below(500),
                          (int)g.below(50));
             } else if (k < 13) {
